@@ -263,7 +263,8 @@ class Image(Species):
 
         # F_i^s||
         f_parallel = (
-            np.linalg.norm(x_r - x) * im_r.k - np.linalg.norm(x - x_l) * im_l.k
+            np.linalg.norm(x_r - x) * im_r.k.to("Ha Å^-2")
+            - np.linalg.norm(x - x_l) * im_l.k.to("Ha Å^-2")
         ) * hat_tau
 
         # ∇V(x)_i|_|_ = ∇V(x)_i - (∇V(x)_i•τ) τ
